@@ -25,7 +25,7 @@ EXPLANATION = (
     'inside the effective support, so every omitted summand lies at or beyond the support edge (with the tail lemma of C07 this '
     'gives the 2 x threshold bound), the whole-period fallback returns (0, full response), half=True is a prefix, and the '
     'response methods are pure functions of (instance, arguments): repeating calls with other widths in between changes nothing.')
-BOUNDS = {'quick': 'widths 2, 3, 8, 9, 64 (compact banks: filters spanning <= 4 bins, Fbank <= 2 bins and widths <= 9; Gabor/gammatone: supports spanning <= 3 bins, any position incl. below 0 Hz / above Nyquist); half vs full response widths 2,3,8,9; purity: call sequences over widths 8,9,64,65 incl. get_truncated_response at adjacent widths',
+BOUNDS = {'quick': 'widths 2, 3, 8, 9, 64 (compact banks: filters spanning <= 4 bins, Fbank <= 2 bins and widths <= 9; Gabor/gammatone: supports spanning <= 3 bins, any position incl. below 0 Hz / above Nyquist); half vs full response widths 2,3,8,9; purity: call sequences over widths 8,9,64,65 incl. get_truncated_response at adjacent widths and half-then-full; before every query another instance of the class (other parameters, other sampling rate) is queried at the same width; class-level mutable state is restored at the start of every path',
           'thorough': 'widths 2, 3, 4, 5, 7, 8, 9, 16, 17, 64, 127, 512'}
 OUTSIDE = ['finiteness of values (floating-point overflow)', 'magnitude of floating-point error',
            'Gabor / gammatone: numerical size of the omitted summands (tail lemma, C07) -- the bound is decided structurally, not numerically']
